@@ -90,9 +90,11 @@ def unescapeSpace : Str → Str
 
 def headingMap : List (Str × Nat) :=
   ((List.range 9).map fun i => (sHeading ++ [95, 49 + i], i + 1)) ++
-  ((List.range 9).map fun i => (sHeading ++ [49 + i], i + 1)) ++ [(sTitle, 1), (sSubtitle, 2)]
+  ((List.range 9).map fun i => (sHeading ++ [49 + i], i + 1)) ++
+  [(sHeading ++ [95, 49, 48], 10), (sHeading ++ [49, 48], 10), (sTitle, 1), (sSubtitle, 2)]
 
 def nameLevel (name : Str) : Nat :=
+  if containsSub name [49, 48] then 10 else
   match (List.range 9).find? fun i => containsSub name [49 + i] with
   | some i => i + 1
   | none => 1
@@ -104,10 +106,10 @@ def detectBuiltInHeading (styleName : Str) : Option Nat :=
   | some e => some e.2
   | none => if isPrefix sHeading name then some (nameLevel name) else none
 
-/-- `strconv.Atoi` result in 1..9 -/
+/-- `strconv.Atoi` result in 1..10 (ODF outline levels) -/
 def level19 (s : Str) : Option Nat :=
   match parseNat? s with
-  | some v => if 1 ≤ v ∧ v ≤ 9 then some v else none
+  | some v => if 1 ≤ v ∧ v ≤ 10 then some v else none
   | none => none
 
 /-- heading info of `Resolve(styleName)` -/
